@@ -370,9 +370,21 @@ def replay(specname, inputs):
 
 
 # ------------------------------------------------------------------------------------------------ driver
+EXTRA_SPLIT = [(r'^awkward_Identities', ['fromwidth', 'tolength', 'fromlength']),
+               (r'combinations_length', ['n']),
+               (r'^awkward_RegularArray_getitem_next_range', ['nextsize']),
+               (r'rpad', ['target'])]
+
+
 def plan_cases(plan, N):
     import itertools
-    names = plan.get('bounded', [])
+    names = list(plan.get('bounded', []))
+    sp = kspec.spec_by_name()[plan['unit']]
+    for rx, extra in EXTRA_SPLIT:
+        if re.search(rx, plan['unit']):
+            for a in sp.args:
+                if a.depth == 0 and a.name in extra and a.name not in names:
+                    names.append(a.name)
     if not names:
         return [{}]
     return [dict(zip(names, vals)) for vals in itertools.product(range(N + 1), repeat=len(names))]
